@@ -17,7 +17,69 @@ import (
 
 type footprintT struct {
 	keys map[string]string // key -> sort
+	old  map[string]bool   // key may be written at a reference that existed before the call / loop iteration
 	all  bool
+}
+
+func newFP() *footprintT { return &footprintT{keys: map[string]string{}, old: map[string]bool{}} }
+
+// absorb merges the writes of one instruction (tmp) into fp; existing tells
+// whether those writes may hit pre-existing objects.
+func (fp *footprintT) absorb(tmp map[string]string, existing bool) {
+	for k, s := range tmp {
+		fp.keys[k] = s
+		if existing {
+			fp.old[k] = true
+		}
+	}
+}
+
+func (fp *footprintT) merge(o *footprintT) {
+	for k, s := range o.keys {
+		fp.keys[k] = s
+		if o.old[k] {
+			fp.old[k] = true
+		}
+	}
+	fp.all = fp.all || o.all
+}
+
+// valueIsFresh: was the object denoted by v (pointer, slice, map) allocated by this function?
+func valueIsFresh(v ssa.Value) bool {
+	switch x := v.(type) {
+	case *ssa.Alloc, *ssa.MakeSlice, *ssa.MakeMap:
+		return true
+	case *ssa.Convert:
+		_, ok := x.Type().Underlying().(*types.Slice)
+		return ok
+	case *ssa.Call:
+		if b, ok := x.Call.Value.(*ssa.Builtin); ok && b.Name() == "append" {
+			return true
+		}
+	case *ssa.Slice:
+		if _, ok := x.X.Type().Underlying().(*types.Pointer); ok {
+			return addrIsFresh(x.X)
+		}
+		return valueIsFresh(x.X)
+	case *ssa.ChangeType:
+		return valueIsFresh(x.X)
+	}
+	return false
+}
+
+func addrIsFresh(v ssa.Value) bool {
+	switch x := v.(type) {
+	case *ssa.Alloc:
+		return true
+	case *ssa.FieldAddr:
+		return addrIsFresh(x.X)
+	case *ssa.IndexAddr:
+		if _, ok := x.X.Type().Underlying().(*types.Pointer); ok {
+			return addrIsFresh(x.X)
+		}
+		return valueIsFresh(x.X)
+	}
+	return false
 }
 
 type fpBool struct {
@@ -386,6 +448,11 @@ func (eng *Engine) pointeeKeys(el types.Type, sc *Script, out map[string]string)
 		eng.structHeapKeys(sc, el, out)
 		return
 	}
+	if arr, ok := el.Underlying().(*types.Array); ok {
+		es := sc.sortOf(arr.Elem())
+		out["A|"+sortTag(es)] = fmt.Sprintf("(Array Int (Array %s %s))", sc.idx(), es)
+		return
+	}
 	srt := sc.sortOf(el)
 	out["M|"+sortTag(srt)] = fmt.Sprintf("(Array Int %s)", srt)
 }
@@ -404,42 +471,53 @@ func (eng *Engine) mapKeysOf(mt *types.Map, sc *Script, out map[string]string) {
 
 // instrWrites: keys one instruction may write (calls: callee footprint).
 func (eng *Engine) instrWrites(ins ssa.Instruction, sc *Script, fn *ssa.Function) *footprintT {
-	fp := &footprintT{keys: map[string]string{}}
+	fp := newFP()
+	tmp := map[string]string{}
 	switch x := ins.(type) {
 	case *ssa.Store:
-		eng.ptrRootKeys(x.Addr, sc, fn, fp.keys)
+		eng.ptrRootKeys(x.Addr, sc, fn, tmp)
+		fp.absorb(tmp, !addrIsFresh(x.Addr))
 	case *ssa.MapUpdate:
-		eng.mapKeysOf(x.Map.Type().Underlying().(*types.Map), sc, fp.keys)
+		eng.mapKeysOf(x.Map.Type().Underlying().(*types.Map), sc, tmp)
+		fp.absorb(tmp, !valueIsFresh(x.Map))
 	case *ssa.Next:
 		if x.IsString {
 			r := x.Iter.(*ssa.Range)
-			fp.keys["IT|"+fn.Name()+"."+r.Name()] = sc.idx()
+			tmp["IT|"+fn.Name()+"."+r.Name()] = sc.idx()
+			fp.absorb(tmp, true)
 		}
 	case *ssa.Range:
 		if isString(x.X.Type()) {
-			fp.keys["IT|"+fn.Name()+"."+x.Name()] = sc.idx()
+			tmp["IT|"+fn.Name()+"."+x.Name()] = sc.idx()
+			fp.absorb(tmp, true)
 		}
 	case *ssa.Alloc:
 		el := x.Type().(*types.Pointer).Elem()
 		if !escapes(x) {
-			fp.keys[fmt.Sprintf("L|%s.%s", fn.Name(), x.Name())] = sc.sortOf(el)
+			tmp[fmt.Sprintf("L|%s.%s", fn.Name(), x.Name())] = sc.sortOf(el)
+			fp.absorb(tmp, true)
 		} else {
-			eng.pointeeKeys(el, sc, fp.keys)
+			eng.pointeeKeys(el, sc, tmp)
+			fp.absorb(tmp, false)
 		}
 	case *ssa.MakeSlice:
 		es := sc.sortOf(x.Type().Underlying().(*types.Slice).Elem())
-		fp.keys["A|"+sortTag(es)] = fmt.Sprintf("(Array Int (Array %s %s))", sc.idx(), es)
+		tmp["A|"+sortTag(es)] = fmt.Sprintf("(Array Int (Array %s %s))", sc.idx(), es)
+		fp.absorb(tmp, false)
 	case *ssa.MakeMap:
-		eng.mapKeysOf(x.Type().Underlying().(*types.Map), sc, fp.keys)
+		eng.mapKeysOf(x.Type().Underlying().(*types.Map), sc, tmp)
+		fp.absorb(tmp, false)
 	case *ssa.Convert:
 		if sl, ok := x.Type().Underlying().(*types.Slice); ok {
 			es := sc.sortOf(sl.Elem())
-			fp.keys["A|"+sortTag(es)] = fmt.Sprintf("(Array Int (Array %s %s))", sc.idx(), es)
+			tmp["A|"+sortTag(es)] = fmt.Sprintf("(Array Int (Array %s %s))", sc.idx(), es)
+			fp.absorb(tmp, false)
 		}
 	case *ssa.Slice:
 		if pt, ok := x.X.Type().Underlying().(*types.Pointer); ok {
 			es := sc.sortOf(pt.Elem().Underlying().(*types.Array).Elem())
-			fp.keys["A|"+sortTag(es)] = fmt.Sprintf("(Array Int (Array %s %s))", sc.idx(), es)
+			tmp["A|"+sortTag(es)] = fmt.Sprintf("(Array Int (Array %s %s))", sc.idx(), es)
+			fp.absorb(tmp, false)
 		}
 	case ssa.CallInstruction:
 		cc := x.Common()
@@ -458,24 +536,29 @@ func (eng *Engine) instrWrites(ins ssa.Instruction, sc *Script, fn *ssa.Function
 }
 
 func (eng *Engine) callWrites(cc *ssa.CallCommon, sc *Script, fn *ssa.Function, fp *footprintT) {
+	tmp := map[string]string{}
 	if b, ok := cc.Value.(*ssa.Builtin); ok {
 		switch b.Name() {
-		case "append", "copy":
+		case "append":
 			if sl, ok := cc.Args[0].Type().Underlying().(*types.Slice); ok {
 				es := sc.sortOf(sl.Elem())
-				fp.keys["A|"+sortTag(es)] = fmt.Sprintf("(Array Int (Array %s %s))", sc.idx(), es)
+				tmp["A|"+sortTag(es)] = fmt.Sprintf("(Array Int (Array %s %s))", sc.idx(), es)
+				fp.absorb(tmp, false) // the model of append writes a fresh backing array only
+			}
+		case "copy":
+			if sl, ok := cc.Args[0].Type().Underlying().(*types.Slice); ok {
+				es := sc.sortOf(sl.Elem())
+				tmp["A|"+sortTag(es)] = fmt.Sprintf("(Array Int (Array %s %s))", sc.idx(), es)
+				fp.absorb(tmp, !valueIsFresh(cc.Args[0]))
 			}
 		case "delete":
-			eng.mapKeysOf(cc.Args[0].Type().Underlying().(*types.Map), sc, fp.keys)
+			eng.mapKeysOf(cc.Args[0].Type().Underlying().(*types.Map), sc, tmp)
+			fp.absorb(tmp, !valueIsFresh(cc.Args[0]))
 		}
 		return
 	}
 	if cc.IsInvoke() {
-		ifp := eng.invokeFootprint(cc, sc)
-		for k, s := range ifp.keys {
-			fp.keys[k] = s
-		}
-		fp.all = fp.all || ifp.all
+		fp.merge(eng.invokeFootprint(cc, sc))
 		eng.argWrites(cc, sc, fp)
 		return
 	}
@@ -495,20 +578,7 @@ func (eng *Engine) callWrites(cc *ssa.CallCommon, sc *Script, fn *ssa.Function, 
 		}
 		return
 	}
-	if c := eng.contractFor(callee); c != nil && c.HasMod {
-		// explicit modifies: approximated by the whole keys of the named locations
-		cfp := eng.footprint(callee, sc)
-		for k, s := range cfp.keys {
-			fp.keys[k] = s
-		}
-		fp.all = fp.all || cfp.all
-		return
-	}
-	cfp := eng.footprint(callee, sc)
-	for k, s := range cfp.keys {
-		fp.keys[k] = s
-	}
-	fp.all = fp.all || cfp.all
+	fp.merge(eng.footprint(callee, sc))
 }
 
 func pureExternal(f *ssa.Function) bool {
@@ -523,14 +593,18 @@ func pureExternal(f *ssa.Function) bool {
 
 func (eng *Engine) argWrites(cc *ssa.CallCommon, sc *Script, fp *footprintT) {
 	for _, a := range cc.Args {
+		tmp := map[string]string{}
 		switch u := a.Type().Underlying().(type) {
 		case *types.Pointer:
-			eng.ptrRootKeys(a, sc, nil, fp.keys)
+			eng.ptrRootKeys(a, sc, nil, tmp)
+			fp.absorb(tmp, !addrIsFresh(a) && !valueIsFresh(a))
 		case *types.Slice:
 			es := sc.sortOf(u.Elem())
-			fp.keys["A|"+sortTag(es)] = fmt.Sprintf("(Array Int (Array %s %s))", sc.idx(), es)
+			tmp["A|"+sortTag(es)] = fmt.Sprintf("(Array Int (Array %s %s))", sc.idx(), es)
+			fp.absorb(tmp, !valueIsFresh(a))
 		case *types.Map:
-			eng.mapKeysOf(u, sc, fp.keys)
+			eng.mapKeysOf(u, sc, tmp)
+			fp.absorb(tmp, !valueIsFresh(a))
 		}
 	}
 }
@@ -541,26 +615,21 @@ func (eng *Engine) footprint(f *ssa.Function, sc *Script) *footprintT {
 		return fp
 	}
 	if eng.fpBusy[f] {
-		return &footprintT{keys: map[string]string{}} // recursion: fixpoint approximated by one more round below
+		return newFP() // recursion: approximated by a second round below
 	}
 	eng.fpBusy[f] = true
-	fp := &footprintT{keys: map[string]string{}}
-	// sorts must be declared in the caller's script too; sortOf does that lazily
+	fp := newFP()
 	for round := 0; round < 2; round++ {
 		for _, b := range f.Blocks {
 			for _, ins := range b.Instrs {
 				w := eng.instrWrites(ins, sc, f)
-				for k, s := range w.keys {
+				for k := range w.keys {
 					if strings.HasPrefix(k, "L|") || strings.HasPrefix(k, "IT|") {
-						continue
+						delete(w.keys, k)
 					}
-					fp.keys[k] = s
 				}
-				fp.all = fp.all || w.all
+				fp.merge(w)
 			}
-		}
-		for _, a := range f.AnonFuncs {
-			_ = a
 		}
 	}
 	delete(eng.fpBusy, f)
@@ -569,7 +638,7 @@ func (eng *Engine) footprint(f *ssa.Function, sc *Script) *footprintT {
 }
 
 func (eng *Engine) invokeFootprint(cc *ssa.CallCommon, sc *Script) *footprintT {
-	fp := &footprintT{keys: map[string]string{}}
+	fp := newFP()
 	it, ok := cc.Value.Type().Underlying().(*types.Interface)
 	if !ok {
 		return fp
@@ -584,11 +653,7 @@ func (eng *Engine) invokeFootprint(cc *ssa.CallCommon, sc *Script) *footprintT {
 			continue
 		}
 		if f := eng.prog.MethodValue(sel); f != nil && len(f.Blocks) > 0 {
-			cfp := eng.footprint(f, sc)
-			for k, s := range cfp.keys {
-				fp.keys[k] = s
-			}
-			fp.all = fp.all || cfp.all
+			fp.merge(eng.footprint(f, sc))
 		}
 	}
 	return fp
